@@ -389,6 +389,44 @@ def solve_all(obs: typing.List[Obligation], jobs: int = 0) -> typing.List[Result
         return list(ex.map(solve, obs))
 
 
+def solve_all_batched(obs: typing.List[Obligation], jobs: int = 0) -> typing.List[Result]:
+    """Obligations with IDENTICAL hypotheses (the postconditions checked at one exit of one path) are first tried as one
+    query `hypotheses => goal_1 and ... and goal_n`: `unsat` discharges all of them (each result records the shared
+    query); anything else falls back to one query per obligation, so verdicts and models are per obligation as before."""
+    groups: typing.Dict[typing.Any, typing.List[int]] = {}
+    for i, o in enumerate(obs):
+        if o.expect != "unsat" or o.alt_assumptions:
+            groups[("single", i)] = [i]
+            continue
+        key = (tuple(map(str, o.decls)), tuple(o.assumptions), o.theory, o.logic, o.function)
+        groups.setdefault(key, []).append(i)
+    combined: typing.List[Obligation] = []
+    members: typing.List[typing.List[int]] = []
+    for key, idxs in groups.items():
+        if len(idxs) == 1:
+            combined.append(obs[idxs[0]])
+        else:
+            first = obs[idxs[0]]
+            combined.append(Obligation(first.name + f"+{len(idxs) - 1}", "batch", first.decls, first.assumptions, And(*[obs[i].goal for i in idxs]), first.theory, first.logic,
+                                       [], "unsat", max(obs[i].timeout for i in idxs), {}, first.function))
+        members.append(idxs)
+    res1 = solve_all(combined, jobs)
+    out: typing.List[typing.Optional[Result]] = [None] * len(obs)
+    retry: typing.List[int] = []
+    for r, idxs in zip(res1, members):
+        if len(idxs) == 1:
+            out[idxs[0]] = r if r.ob is obs[idxs[0]] else Result(obs[idxs[0]], r.status, r.backend, r.seconds, r.model, r.raw, r.tried)
+        elif r.status == "unsat":
+            for k, i in enumerate(idxs):
+                out[i] = Result(obs[i], "unsat", r.backend + "/batched", r.seconds if k == 0 else 0.0, {}, r.raw, r.tried)
+        else:
+            retry.extend(idxs)
+    if retry:
+        for i, r in zip(retry, solve_all([obs[i] for i in retry], jobs)):
+            out[i] = r
+    return out  # type: ignore
+
+
 # ---- tiny term builders -------------------------------------------------------------------------
 
 
